@@ -143,17 +143,17 @@ func (c *VCtx) cmpTerm(v Val) *Term {
 func (c *VCtx) strEq(a, b *Term) *Term {
 	// equal length and equal bytes below the length
 	fn := sym("streq")
-	if !c.declSet["def:streq"] {
-		c.declSet["def:streq"] = true
-		c.decls = append(c.decls, "(define-fun streq ((a Str) (b Str)) Bool (and (= (str-len a) (str-len b)) (forall ((i Int)) (=> (and (<= 0 i) (< i (str-len a))) (= (select (str-data a) i) (select (str-data b) i))))))")
-	}
 	return T(SBool, fmt.Sprintf("(%s %s %s)", fn, a.S, b.S))
+}
+
+func (c *VCtx) hasPrefix(s, p *Term) *Term {
+	return T(SBool, fmt.Sprintf("(hasprefix %s %s)", s.S, p.S))
 }
 
 func (c *VCtx) strConcat(a, b *Term) *Term {
 	r := c.fresh("cat", SStr)
 	c.defFact(r, Eq(StrLen(r), Add(StrLen(a), StrLen(b))))
-	c.defFact(r, T(SBool, fmt.Sprintf("(forall ((i Int)) (! (= (select (str-data %s) i) (ite (< i (str-len %s)) (select (str-data %s) i) (select (str-data %s) (- i (str-len %s))))) :pattern ((select (str-data %s) i))))", r.S, a.S, a.S, b.S, a.S, r.S)))
+	c.defFact(r, T(SBool, fmt.Sprintf("(forall ((i Int)) (! (= (select (str-data %s) i) (ite (< i (slen %s)) (select (str-data %s) i) (select (str-data %s) (- i (slen %s))))) :pattern ((select (str-data %s) i))))", r.S, a.S, a.S, b.S, a.S, r.S)))
 	return r
 }
 
@@ -276,7 +276,7 @@ func (c *VCtx) indexAddr(fr *Frame, st *State, x *ssa.IndexAddr) Val {
 		s := fr.term(x.X)
 		c.safety(fr, st, "index", And(Ge(idx, IntLit(0)), Lt(idx, SlLen(s))), x.Pos())
 		es := sortOf(t.Elem())
-		return &Loc{Kind: "elem", Heap: elemHeapName(es), Sort: es, Base: SlArr(s), Idx: c.name("ix", Add(SlOff(s), idx)), GT: t.Elem()}
+		return &Loc{Kind: "elem", Heap: elemHeapName(es), Sort: es, Base: SlArr(s), Idx: SIdx(s, idx), GT: t.Elem()}
 	case *types.Pointer:
 		at := t.Elem().Underlying().(*types.Array)
 		l, ok := fr.eval(x.X).(*Loc)
